@@ -206,8 +206,31 @@ def interval_cases(d, base, n, addr):
     return cnt, bad
 
 
+BOUNDARY_ADDRS = [0, 1, 0x10, (1 << 31) - 1, 1 << 32, (1 << 63) - 1, 1 << 63, (1 << 63) + 0x11, (1 << 64) - 0x100, (1 << 64) - 1]
+
+
+def boundary_pairs(d, addr):
+    """`a b aset` for every ordered pair of boundary addresses: either order gives the range [min, max), whatever the distance."""
+    cnt, bad = 0, []
+    pairs = [(a, b) for a in BOUNDARY_ADDRS for b in BOUNDARY_ADDRS]
+    rs = d.batch([drv.run_cmd("%#x %#x aset" % (a, b), lim=3) for a, b in pairs])
+    for (a, b), r in zip(pairs, rs):
+        cnt += 1
+        lo, hi = min(a, b), max(a, b)
+        exp = ["AS:%s@0" % ("%x+%x" % (lo, hi - lo) if hi != lo else "")]
+        if r.crash or r.results() != exp or r.stderr or len(r.lines) != 1:
+            bad.append(("asetpair:%x:%x" % (a, b), "`%#x %#x aset` gave %r %r, expected %r" % (a, b, r.lines[:2], r.stderr[:120], exp)))
+    return cnt, bad
+
+
 def replay(case):
     ctx = common.Ctx("C16", "quick")
+    if case["part"] == "boundary":
+        d = drv.Drv(ctx.bin("zwdrv"), "full")
+        try:
+            return bool(boundary_pairs(d, None)[1])
+        finally:
+            d.close()
     if case["part"] == "A":
         base, n, viols, _ = run_harness((ctx.bin("cov_harness"), case["base"], case["n"]))
         return any(v.split(" :: ")[0] == case["key"] for v in viols)
@@ -263,6 +286,10 @@ def main(ctx):
         nrun += cnt
         for k, why in bad:
             ctx.violation("zw:%x:%s" % (base, k), why, {"part": "interval", "base": base, "n": nb, "addr": addr})
+    cnt, bad = boundary_pairs(d, addr)
+    nrun += cnt
+    for k, why in bad:
+        ctx.violation("zw:" + k, why, {"part": "boundary"})
     d.close()
     for base in bases(nb):
         extra = {"n": nb, "base": base, "addr": addr}
@@ -285,7 +312,7 @@ def main(ctx):
         "rule": "state = distinct representation of the real coverage object reached by BFS with add/remove of every interval of the universe "
                 "(must equal 2^N per universe when the canonical-form invariant holds); every state and every ordered pair of states is compared with a bitmap",
         "bounds": {"universe_size_harness": na, "universe_size_engine": nb, "bases": ["%#x" % b for b in bases(na)],
-                   "ops_per_state": "add/remove x all intervals incl. zero length"},
+                   "ops_per_state": "add/remove x all intervals incl. zero length", "aset_construction": "every ordered pair of %d boundary addresses (0 .. 2^64-1)" % len(BOUNDARY_ADDRS)},
     }
     return ctx.finish("model_checking", cov, [
         "a Python/C++ bitmap over the universe is the reference",
